@@ -395,7 +395,7 @@ class RunLoop(W.LoopContract):
                 oblige("exit.%s.no-filler-rows" % s, self._cursor(w, s) == self._cap(w, s))
 
 
-def _run_config(ctx, data_on, posmask, xyz_on, print_on, ckpt_on, resume=False, on_ckpt=None):
+def _run_config(ctx, data_on, posmask, xyz_on, print_on, ckpt_on, resume=False, on_ckpt=None, run_kwargs=None, remove_com=None):
     tgt_run = MD + ":Molecular_Dynamics_Basic.run"
     ctx.under_contract(tgt_run, loops_cut=["for i in range(self.step_offset, steps)"],
                        stubs=["_do_integrator_step", "append_vectors", "append_data", "_kinetic_energy", "_calc_temperature", "save_checkpoint", "_output_to_screen", "initialize_velocity", "esdriver", "_rotate_existing"])
@@ -453,11 +453,19 @@ def _run_config(ctx, data_on, posmask, xyz_on, print_on, ckpt_on, resume=False, 
             _prepopulate_resume_disk(disk, env)
         md = Molecular_Dynamics_Basic({"method": "AM1"}, timestep=real("dt"), Temp=real("Temp"), step_offset=env.get("k0", 0), output=output)
         mol = ghost_molecule(env.get("k0", 0))
-        run(md, mol, env["steps"])
+        kw = {}
+        for k_, v_ in (run_kwargs or {}).items():
+            kw[k_] = v_() if callable(v_) else v_
+        run(md, mol, env["steps"], remove_com=remove_com, **kw)
         return "returned"
+
+    def stub_zero_com(self, molecule, remove_angular=True, translate_to_origin=False, restore_kinetic_energy=True):
+        # contract (C13): modifies the velocities (and nothing the output reads besides them): arbitrary new values
+        molecule.velocities = st.symbolic((1, 1, 3), st._fresh_name("vcom").replace("#", "_"))
 
     stubs = {
         MD + ":esdriver": DummyDriver,
+        MD + ":Molecular_Dynamics_Basic._zero_com": stub_zero_com,
         MD + ":_rotate_existing": lambda *a, **k: None,
         MD + ":Molecular_Dynamics_Basic._do_integrator_step": stub_integrator,
         MD + ":Molecular_Dynamics_Basic._output_to_screen": stub_screen,
